@@ -2586,7 +2586,10 @@ pub fn sum() -> impl Function {
             |values| values.into_iter().map(|f| *f).sum::<i64>().into(),
             |(intervals, size)| {
                 Ok(data_type::Integer::try_from(multiply().super_image(
-                    &DataType::structured_from_data_types([intervals.into(), size.into()]),
+                    &DataType::structured_from_data_types([
+                        intervals.into_interval().into(),
+                        size.into(),
+                    ]),
                 )?)?)
             },
         ),
@@ -2596,7 +2599,10 @@ pub fn sum() -> impl Function {
             |values| values.into_iter().map(|f| *f).sum::<f64>().into(),
             |(intervals, size)| {
                 Ok(data_type::Float::try_from(multiply().super_image(
-                    &DataType::structured_from_data_types([intervals.into(), size.into()]),
+                    &DataType::structured_from_data_types([
+                        intervals.into_interval().into(),
+                        size.into(),
+                    ]),
                 )?)?)
             },
         ),
@@ -2621,7 +2627,10 @@ pub fn sum_distinct() -> impl Function {
             },
             |(intervals, size)| {
                 Ok(data_type::Integer::try_from(multiply().super_image(
-                    &DataType::structured_from_data_types([intervals.into(), size.into()]),
+                    &DataType::structured_from_data_types([
+                        intervals.into_interval().into(),
+                        size.into(),
+                    ]),
                 )?)?)
             },
         ),
@@ -2640,7 +2649,10 @@ pub fn sum_distinct() -> impl Function {
             },
             |(intervals, size)| {
                 Ok(data_type::Float::try_from(multiply().super_image(
-                    &DataType::structured_from_data_types([intervals.into(), size.into()]),
+                    &DataType::structured_from_data_types([
+                        intervals.into_interval().into(),
+                        size.into(),
+                    ]),
                 )?)?)
             },
         ),
